@@ -188,21 +188,30 @@ func judgeCase(c *caseSpec, mk func() world, reps int, res *engine.Result) (firs
 		rel := ""
 		if c.redef != nil {
 			r := c.redef.r
-			ancN, _ := ancestors(fin, nil, f.cls)
-			ancO, _ := ancestors(c.defs, nil, f.cls)
+			via := false // r is reached through another class (under the old or the new definitions)
 			direct := false
-			for _, s := range append(append([]int(nil), fin[f.cls].supers...), c.defs[f.cls].supers...) {
-				if s == r {
-					direct = true
+			for _, defs := range [][]classDef{fin, c.defs} {
+				anc, _ := ancestors(defs, nil, f.cls)
+				for _, s := range defs[f.cls].supers {
+					if s == r {
+						direct = true
+					}
+				}
+				for a := range anc {
+					if a != r {
+						if aa, _ := ancestors(defs, nil, a); aa[r] {
+							via = true
+						}
+					}
 				}
 			}
 			switch {
 			case f.cls == r:
 				rel = "/redefined-class"
+			case via:
+				rel = "/indirect-subclass"
 			case direct:
 				rel = "/direct-subclass"
-			case ancN[r] || ancO[r]:
-				rel = "/indirect-subclass"
 			default:
 				rel = "/unrelated-class"
 			}
@@ -277,7 +286,9 @@ func judgeCase(c *caseSpec, mk func() world, reps int, res *engine.Result) (firs
 			if c.redef != nil && 0 < len(fs) {
 				oldFail = map[string]bool{}
 				for _, of := range judgeFinal(c.defs, hr.final) {
-					oldFail[of.key] = true
+					if !of.shared { // the old definitions seen through the shared-initarg behaviour still count as "old"
+						oldFail[of.key] = true
+					}
 				}
 			}
 			for _, f := range hr.mid {
